@@ -712,7 +712,9 @@ func c44Session(t *testing.T, st *vs.S) func(rt *rapid.T) {
 		dial := &b.key.PublicKey
 		if mode == "wrong-dest" {
 			other := c44DrawKey(rt, "c")
-			if c44SamePub(&other.PublicKey, dial) {
+			if other.PublicKey.X.Cmp(dial.X) == 0 {
+				// Same key, or its negation n-d: ECDH only uses the x coordinate, so the holder of d
+				// also "owns" n-d (public key -Q) and legitimately completes such a handshake.
 				mode = "honest-seq"
 			} else {
 				dial = &other.PublicKey
